@@ -259,7 +259,7 @@ theorem presH_tightenUnary (hup : ∀ x, fin x ≤ up x) (dim : Nat) (m : Mat) :
       simp only [Bool.and_eq_true, Bool.not_eq_true'] at hc
       obtain ⟨hfin, hodd⟩ := hc
       intro a' b' hab'
-      simp only [Mat.set]
+      simp only [Mat.set_apply]
       split
       · rename_i he
         obtain ⟨rfl, rfl⟩ := he
@@ -295,7 +295,7 @@ theorem mle_tightenUnary (hdec : ∀ q : Rat, (fin q).isOddInt = true → up (q 
       simp only [Bool.and_eq_true, Bool.not_eq_true'] at hc
       obtain ⟨hfin, hodd⟩ := hc
       intro a' b'
-      simp only [Mat.set]
+      simp only [Mat.set_apply]
       split
       · rename_i he
         obtain ⟨rfl, rfl⟩ := he
